@@ -477,14 +477,19 @@ def property_dependency_check(prop):
     if dep is None:
         return
 
-    try:
-        dep_obj = prop.parent[dep]
-    except KeyError:
+    # A dependency refers to a Property of the same Section by its name.
+    dep_obj = None
+    for sibling in prop.parent.properties:
+        if sibling.name == dep:
+            dep_obj = sibling
+            break
+
+    if dep_obj is None:
         msg = "Property refers to a non-existent dependency object"
         yield ValidationError(prop, msg, LABEL_WARNING, validation_id)
         return
 
-    if prop.dependency_value not in dep_obj.values[0]:
+    if prop.dependency_value not in dep_obj.values:
         msg = "Dependency-value is not equal to value of the property's dependency"
         yield ValidationError(prop, msg, LABEL_WARNING, validation_id)
 
